@@ -66,6 +66,20 @@ pub fn generate(g: &mut Gen) {
     for chunk in exh.chunks(32) {
         g.case(chunk.iter().map(|a| format!("exh2 {:02x}", a)));
     }
+    // long buffers: lengths around and beyond 2^16 (a length counter narrower than usize would wrap here); the only
+    // difference lies in the leading part (index 0, or anywhere before len - 65536), the tails are equal
+    for &n in &[65535usize, 65536, 65537, 65552, 131073] {
+        let a = g.rng.bytes(n);
+        let mut ops = vec![];
+        for lead in [0usize, (n - 1).saturating_sub(65536).min(n - 1)] {
+            let mut b = a.clone();
+            b[lead] = b[lead].wrapping_add(if g.rng.chance(1, 2) { 1 } else { 0xff });
+            ops.push(format!("cmp {} {}", hex(&a), hex(&b)));
+            ops.push(format!("eq {} {}", hex(&a), hex(&b)));
+        }
+        ops.push(format!("cmp {} {}", hex(&a), hex(&a)));
+        g.case(ops);
+    }
     for _ in 0..g.cases {
         let k = g.rng.range(1, 12);
         let mut ops = vec![];
